@@ -48,7 +48,8 @@ class Quaternion(Vector):
             if arg._numer_ == (3,):
                 return Quaternion.from_parts(0., arg, recursive=recursive)
 
-            arg = Quaternion(arg, arg._mask_, example=arg)
+            arg = Quaternion(arg, arg._mask_, derivs=arg._derivs_,
+                             example=arg)
             if recursive:
                 return arg
             return arg.wod
